@@ -263,6 +263,11 @@ class TypedNode(Node):
             if deep is None:
                 deep = True
             topnodes = child._root.children
+            # Check this before the first node is added
+            existing_ids = {n._data_id for n in self.children}
+            for n in topnodes:
+                if n._data_id in existing_ids:
+                    raise UniqueConstraintError("Node.data already exists in parent")
             if isinstance(before, (int, TypedNode)) and before is not False:
                 topnodes = topnodes[::-1]
             for n in topnodes:
